@@ -21,7 +21,7 @@ import (
 // Get, Has and RangeKeys. Validation beyond the property's quantifier, not proof.
 func (comp) Extra(prop string, tier string, seed int64, scratch string) *core.ExtraResult {
 	res := &core.ExtraResult{Counts: map[string]int{}}
-	if prop == "C08" {
+	if prop == "C08" || prop == "C11" {
 		// C08 at scale only (the concurrent / reused-buffer rounds below are about C09's clause)
 		scalePersist(res, prop, tier, scratch)
 		res.Rule = "scale rounds (monitor only): 20 000 distinct keys pending in ONE batch (MaxBatchSize 50 000) of leveldb.DB and leveldb.SerialDB; every Put is read back at once by Get and Has, and a sample again with all of them pending"
@@ -228,8 +228,8 @@ func scalePersist(res *core.ExtraResult, prop string, tier string, scratch strin
 	for _, kind := range []int{0, 1} {
 		name := []string{"leveldb.DB", "leveldb.SerialDB"}[kind]
 		val := func(i int) []byte { return []byte(fmt.Sprintf("value-%d", i)) }
-		if prop == "C08" {
-			scalePending(res, kind, name, scratch, val)
+		if prop == "C08" || prop == "C11" {
+			scalePending(res, prop, kind, name, scratch, val)
 			continue
 		}
 		// (b)
@@ -258,6 +258,16 @@ func scalePersist(res *core.ExtraResult, prop string, tier string, scratch strin
 				put(k+"\xff", i+5)
 			}
 		}
+		// values and one key longer than 128 KiB / 1 MiB: compared in full through RangeKeys, Get after the reopen
+		for n, size := range []int{1 << 17, 1<<17 + 1, 200000, 1<<20 + 1} {
+			long := bytes.Repeat([]byte{byte(0x61 + n)}, size)
+			long[size-1], long[size/2] = 0x7e, 0x7d
+			if p.Put([]byte(fmt.Sprintf("long-value-%d", size)), long) == nil {
+				want[fmt.Sprintf("long-value-%d", size)] = long
+			}
+		}
+		longKey := string(bytes.Repeat([]byte("K"), 1<<17+5)) + "-end"
+		put(longKey, 77)
 		walk := func(q interface {
 			RangeKeys(func(key []byte, val []byte) bool)
 		}, when string) {
@@ -266,14 +276,14 @@ func scalePersist(res *core.ExtraResult, prop string, tier string, scratch strin
 			q.RangeKeys(func(k, v []byte) bool {
 				seen[string(k)]++
 				if wv, ok := want[string(k)]; (!ok || !bytes.Equal(wv, v)) && bad == "" {
-					bad = fmt.Sprintf("visits (%q, %q), the acknowledged map has (%q, %v)", k, v, wv, ok)
+					bad = fmt.Sprintf("visits (%.60q.. [%d bytes], %.60q.. [%d bytes]), the acknowledged map has (%.60q.. [%d bytes], %v)", k, len(k), v, len(v), wv, len(wv), ok)
 				}
 				return true
 			})
 			res.Evaluations++
 			for k := range want {
 				if seen[k] != 1 && bad == "" {
-					bad = fmt.Sprintf("visits key %q %d times (of %d flushed keys, %d visited)", k, seen[k], len(want), len(seen))
+					bad = fmt.Sprintf("visits key %.60q %d times (of %d flushed keys, %d visited)", k, seen[k], len(want), len(seen))
 				}
 			}
 			if bad != "" {
@@ -297,12 +307,12 @@ func scalePersist(res *core.ExtraResult, prop string, tier string, scratch strin
 }
 
 // scalePending: C08 with many distinct keys pending in one batch (see scalePersist)
-func scalePending(res *core.ExtraResult, kind int, name string, scratch string, val func(int) []byte) {
+func scalePending(res *core.ExtraResult, prop string, kind int, name string, scratch string, val func(int) []byte) {
 	dir := filepath.Join(scratch, fmt.Sprintf("scale-a-%d", kind))
 	_ = os.RemoveAll(dir)
 	p, err := openForExtra(kind, dir, 50000)
 	if err != nil {
-		res.Fails = append(res.Fails, core.Fail{Property: "C08", Step: -1, Msg: "scale: open: " + err.Error()})
+		res.Fails = append(res.Fails, core.Fail{Property: prop, Step: -1, Msg: "scale: open: " + err.Error()})
 		return
 	}
 	const nPending = 20000
@@ -313,19 +323,57 @@ func scalePending(res *core.ExtraResult, kind int, name string, scratch string, 
 		}
 		res.Evaluations++
 		if v, gerr := p.Get(k); gerr != nil || !bytes.Equal(v, val(i)) {
-			res.Fails = append(res.Fails, core.Fail{Property: "C08", Step: -1, Msg: fmt.Sprintf("scale (%s, MaxBatchSize 50000): Get right after Put #%d (%d keys pending in the batch) returns (%q, %v)", name, i, i+1, v, gerr)})
+			res.Fails = append(res.Fails, core.Fail{Property: prop, Step: -1, Msg: fmt.Sprintf("scale (%s, MaxBatchSize 50000): Get right after Put #%d (%d keys pending in the batch) returns (%q, %v)", name, i, i+1, v, gerr)})
 		}
 		if herr := p.Has(k); herr != nil {
-			res.Fails = append(res.Fails, core.Fail{Property: "C08", Step: -1, Msg: fmt.Sprintf("scale (%s): Has right after Put #%d (%d keys pending) = %v", name, i, i+1, herr)})
+			res.Fails = append(res.Fails, core.Fail{Property: prop, Step: -1, Msg: fmt.Sprintf("scale (%s): Has right after Put #%d (%d keys pending) = %v", name, i, i+1, herr)})
 		}
 	}
 	for i := 0; i < nPending && len(res.Fails) == 0; i += 97 {
 		k := []byte(fmt.Sprintf("pending-%06d", i))
 		if v, gerr := p.Get(k); gerr != nil || !bytes.Equal(v, val(i)) {
-			res.Fails = append(res.Fails, core.Fail{Property: "C08", Step: -1, Msg: fmt.Sprintf("scale (%s): with %d keys pending, Get of pending key #%d returns (%q, %v)", name, nPending, i, v, gerr)})
+			res.Fails = append(res.Fails, core.Fail{Property: prop, Step: -1, Msg: fmt.Sprintf("scale (%s): with %d keys pending, Get of pending key #%d returns (%q, %v)", name, nPending, i, v, gerr)})
 		}
 	}
-	_ = p.Close()
-	_ = os.RemoveAll(dir)
+	// a value of a mebibyte put over a pending Remove, and over a pending Put, must be what the next read returns
+	for _, size := range []int{1<<17 + 1, 1 << 20, 1<<20 + 1} {
+		long := bytes.Repeat([]byte{0x4c}, size)
+		long[0], long[size-1] = 1, 2
+		kr := []byte(fmt.Sprintf("long-over-remove-%d", size))
+		_ = p.Put(kr, []byte("old"))
+		_ = p.Remove(kr)
+		if p.Put(kr, long) == nil {
+			res.Evaluations++
+			if v, gerr := p.Get(kr); gerr != nil || !bytes.Equal(v, long) {
+				res.Fails = append(res.Fails, core.Fail{Property: prop, Step: -1, Msg: fmt.Sprintf("scale (%s): Put(k, %d bytes) after a pending Remove(k): Get returns %d bytes (err %v)", name, size, len(v), gerr)})
+			}
+			if p.Has(kr) != nil {
+				res.Fails = append(res.Fails, core.Fail{Property: prop, Step: -1, Msg: fmt.Sprintf("scale (%s): Put(k, %d bytes) after a pending Remove(k): Has says absent", name, size)})
+			}
+		}
+	}
 	res.Counts["scale_pending_rounds"]++
+	_ = p.Close()
+	// a value read from DISK belongs to the caller (goleveldb hands out a private copy): overwriting it must not change the next read.
+	// (A value read from the pending batch is the slice the batch holds; that is the unchanged tree's behaviour and is not tested.)
+	if q, err := openForExtra(kind, dir, 50000); err == nil {
+		for i := 0; i < 2000; i += 37 {
+			k := []byte(fmt.Sprintf("pending-%06d", i))
+			v1, e1 := q.Get(k)
+			if e1 != nil {
+				continue
+			}
+			keep := append([]byte{}, v1...)
+			for j := range v1 {
+				v1[j] = 0xEE
+			}
+			res.Evaluations++
+			if v2, e2 := q.Get(k); e2 != nil || !bytes.Equal(v2, keep) {
+				res.Fails = append(res.Fails, core.Fail{Property: prop, Step: -1, Msg: fmt.Sprintf("scale (%s): after the caller overwrote the slice a Get of flushed key %s returned, the next Get returns %q (err %v) instead of %q", name, k, v2, e2, keep)})
+				break
+			}
+		}
+		_ = q.Close()
+	}
+	_ = os.RemoveAll(dir)
 }
